@@ -234,7 +234,8 @@ def run(ctx):
         "rule": "%d distinct texts: C03's spelling x context product for the default dialect%s, 7 document shapes x all "
                 "<= 1 spelling deviations, extra documents, %d corpus files; each loaded by pvl.loads and pvl.new.loads, "
                 "trees compared level by level, then dumped with the default encoder and the 4 encoders (new ones "
-                "parameterised with the new container classes); non-trivial = both loaded, trees and all 5 dumps "
+                "parameterised with the new container classes), then the same pair of results dumped by one encoder after "
+                "the other in two orders with the trees re-compared after every dump; non-trivial = both loaded, trees and all dumps "
                 "compared" % (len(items), " (every third spelling)" if ctx.quick else "", len(list(corpus()))),
         "outcome_histogram": dict(acc.outcomes),
         "samples": acc.samples[:6], "exhaustive": True,
